@@ -1,8 +1,52 @@
 //! Exhaustive sweeps over ALL operand pairs of the 16-bit (and 8-bit) configurations against the Rust primitive of the same width,
 //! executed in-process (the primitive is the oracle; only total, non-panicking forms are used so no catch_unwind is needed per call).
 //! request: <cfg> <group c01|c02|c03|c05|c06|c07|c08> d<a_lo> d<a_hi>   (a = first operand pattern, b sweeps the whole type)
+//!      or: <cfg> <group> d<seed> d<count> d1                          (bulk mode for the 32/64/128-bit configurations: <count> operand
+//!                                                                       pairs from a structured pseudo-random generator seeded with <seed>)
 //! response: exh=(evaluations, mismatches, first mismatch as text)
 use bnum_verif_harness::*;
+
+/// xorshift64* PRNG and a structured operand generator for the bulk mode (the primitive is the oracle, so the generator may live here)
+pub struct Rng(pub u64);
+impl Rng {
+    pub fn next(&mut self) -> u64 {
+        let mut x = self.0;
+        x ^= x >> 12; x ^= x << 25; x ^= x >> 27;
+        self.0 = x;
+        x.wrapping_mul(0x2545F4914F6CDD1D)
+    }
+    pub fn u128(&mut self) -> u128 { ((self.next() as u128) << 64) | self.next() as u128 }
+    pub fn val(&mut self, bits: u32) -> u128 {
+        let mask = if bits >= 128 { u128::MAX } else { (1u128 << bits) - 1 };
+        let k = (self.next() % bits as u64) as u32;
+        let v = match self.next() % 10 {
+            0 | 1 => self.u128(),
+            2 => { // every byte from {0, 0xff, random}, in runs
+                let mut v = 0u128; let mut mood = self.next() % 3;
+                for i in 0..16 { if self.next() % 3 == 0 { mood = self.next() % 3; }
+                    let b = match mood { 0 => 0u128, 1 => 0xff, _ => (self.next() & 0xff) as u128 }; v |= b << (8 * i); }
+                v }
+            3 => (1u128 << k).wrapping_add((self.next() % 3) as u128).wrapping_sub(1),
+            4 => (self.u128() & mask) >> k,
+            5 => mask >> k,
+            6 => !(1u128 << k),
+            7 => self.next() as u128 % 17,
+            8 => (mask >> 1).wrapping_add((self.next() % 4) as u128).wrapping_sub(1),   // around MAX/MIN of the signed type
+            _ => 0u128.wrapping_sub(self.next() as u128 % 17),
+        };
+        v & mask
+    }
+    pub fn pair(&mut self, bits: u32) -> (u128, u128) {
+        let mask = if bits >= 128 { u128::MAX } else { (1u128 << bits) - 1 };
+        let a = self.val(bits);
+        let k = (self.next() % bits as u64) as u32;
+        let b = match self.next() % 12 {
+            0 => a, 1 => a.wrapping_add(1), 2 => a.wrapping_sub(1), 3 => !a, 4 => 0u128.wrapping_sub(a), 5 => a >> k, 6 => mask.wrapping_sub(a),
+            _ => self.val(bits),
+        };
+        (a, b & mask)
+    }
+}
 
 macro_rules! chk {
     ($ev:ident, $bad:ident, $first:ident, $name:literal, $a:expr, $b:expr, $x:expr, $y:expr) => {{
@@ -24,18 +68,25 @@ macro_rules! chk {
 
 macro_rules! sweep_u {
     ($fname:ident, $T:ty, $S:ty, $P:ty, $PS:ty) => {
-        pub fn $fname(group: &str, lo: u32, hi: u32) -> (u64, u64, String) {
+        pub fn $fname(group: &str, lo: u128, hi: u128, bulk: bool) -> (u64, u64, String) {
             let (mut ev, mut bad, mut first) = (0u64, 0u64, String::new());
-            let span: u32 = 1 << (8 * <$P as Pat>::PAT_BYTES);
-            for ai in lo..hi {
-                let pa = ai as $P;
-                let a = <$T as Pat>::from_low_u128(ai as u128);
-                let bmax = if group == "c05" { 2 * 8 * <$P as Pat>::PAT_BYTES as u32 + 2 } else if group == "c08" { span.min(4096) } else { span };
-                for bi in 0..bmax {
+            let bits: u32 = 8 * <$P as Pat>::PAT_BYTES as u32;
+            let span: u128 = if bits >= 64 { u128::MAX } else { 1u128 << bits };
+            let mut rng = Rng((lo as u64) | 1);
+            let outer = if bulk { 0..hi } else { lo..hi };
+            for it in outer {
+                let bmax: u128 = if bulk { 1 } else if group == "c05" { 2 * bits as u128 + 2 } else if group == "c08" { span.min(4096) } else { span };
+                for bj in 0..bmax {
+                    let (ai, bi): (u128, u128) = if bulk {
+                        let (x, y) = rng.pair(bits);
+                        (x, if group == "c05" { y % (2 * bits as u128 + 2) } else { y })
+                    } else { (it, bj) };
+                    let pa = ai as $P;
+                    let a = <$T as Pat>::from_low_u128(ai);
                     let pb = bi as $P;
-                    let b = <$T as Pat>::from_low_u128(bi as u128);
+                    let b = <$T as Pat>::from_low_u128(bi);
                     let pbs = pb as $PS;
-                    let bs = <$S as Pat>::from_low_u128(bi as u128);
+                    let bs = <$S as Pat>::from_low_u128(bi);
                     match group {
                         "c01" => {
                             chk!(ev, bad, first, "overflowing_add", ai, bi, a.overflowing_add(b), pa.overflowing_add(pb));
@@ -76,7 +127,7 @@ macro_rules! sweep_u {
                             }
                         }
                         "c05" => {
-                            let s = bi;
+                            let s = bi as u32;
                             chk!(ev, bad, first, "checked_shl", ai, bi, a.checked_shl(s), pa.checked_shl(s));
                             chk!(ev, bad, first, "checked_shr", ai, bi, a.checked_shr(s), pa.checked_shr(s));
                             chk!(ev, bad, first, "overflowing_shl", ai, bi, a.overflowing_shl(s), pa.overflowing_shl(s));
@@ -112,7 +163,7 @@ macro_rules! sweep_u {
                             chk!(ev, bad, first, "min", ai, bi, a.min(b), pa.min(pb));
                         }
                         "c08" => {
-                            let e = bi & 31;
+                            let e = (bi & 31) as u32;
                             chk!(ev, bad, first, "overflowing_pow", ai, bi, a.overflowing_pow(e), pa.overflowing_pow(e));
                             chk!(ev, bad, first, "checked_pow", ai, bi, a.checked_pow(e), pa.checked_pow(e));
                             chk!(ev, bad, first, "saturating_pow", ai, bi, a.saturating_pow(e), pa.saturating_pow(e));
@@ -133,18 +184,25 @@ macro_rules! sweep_u {
 
 macro_rules! sweep_i {
     ($fname:ident, $T:ty, $U:ty, $P:ty, $PU:ty) => {
-        pub fn $fname(group: &str, lo: u32, hi: u32) -> (u64, u64, String) {
+        pub fn $fname(group: &str, lo: u128, hi: u128, bulk: bool) -> (u64, u64, String) {
             let (mut ev, mut bad, mut first) = (0u64, 0u64, String::new());
-            let span: u32 = 1 << (8 * <$P as Pat>::PAT_BYTES);
-            for ai in lo..hi {
-                let pa = ai as $PU as $P;
-                let a = <$T as Pat>::from_low_u128(ai as u128);
-                let bmax = if group == "c05" { 2 * 8 * <$P as Pat>::PAT_BYTES as u32 + 2 } else if group == "c08" { span.min(4096) } else { span };
-                for bi in 0..bmax {
+            let bits: u32 = 8 * <$P as Pat>::PAT_BYTES as u32;
+            let span: u128 = if bits >= 64 { u128::MAX } else { 1u128 << bits };
+            let mut rng = Rng((lo as u64) | 1);
+            let outer = if bulk { 0..hi } else { lo..hi };
+            for it in outer {
+                let bmax: u128 = if bulk { 1 } else if group == "c05" { 2 * bits as u128 + 2 } else if group == "c08" { span.min(4096) } else { span };
+                for bj in 0..bmax {
+                    let (ai, bi): (u128, u128) = if bulk {
+                        let (x, y) = rng.pair(bits);
+                        (x, if group == "c05" { y % (2 * bits as u128 + 2) } else { y })
+                    } else { (it, bj) };
+                    let pa = ai as $PU as $P;
+                    let a = <$T as Pat>::from_low_u128(ai);
                     let pb = bi as $PU as $P;
-                    let b = <$T as Pat>::from_low_u128(bi as u128);
+                    let b = <$T as Pat>::from_low_u128(bi);
                     let pbu = bi as $PU;
-                    let bu = <$U as Pat>::from_low_u128(bi as u128);
+                    let bu = <$U as Pat>::from_low_u128(bi);
                     match group {
                         "c01" => {
                             chk!(ev, bad, first, "overflowing_add", ai, bi, a.overflowing_add(b), pa.overflowing_add(pb));
@@ -191,7 +249,7 @@ macro_rules! sweep_i {
                             }
                         }
                         "c05" => {
-                            let s = bi;
+                            let s = bi as u32;
                             chk!(ev, bad, first, "checked_shl", ai, bi, a.checked_shl(s), pa.checked_shl(s));
                             chk!(ev, bad, first, "checked_shr", ai, bi, a.checked_shr(s), pa.checked_shr(s));
                             chk!(ev, bad, first, "overflowing_shl", ai, bi, a.overflowing_shl(s), pa.overflowing_shl(s));
@@ -230,7 +288,7 @@ macro_rules! sweep_i {
                             }
                         }
                         "c08" => {
-                            let e = bi & 31;
+                            let e = (bi & 31) as u32;
                             chk!(ev, bad, first, "overflowing_pow", ai, bi, a.overflowing_pow(e), pa.overflowing_pow(e));
                             chk!(ev, bad, first, "checked_pow", ai, bi, a.checked_pow(e), pa.checked_pow(e));
                             chk!(ev, bad, first, "saturating_pow", ai, bi, a.saturating_pow(e), pa.saturating_pow(e));
@@ -251,21 +309,38 @@ sweep_u!(u16x1, BUintD16<1>, BIntD16<1>, u16, i16);
 sweep_i!(i8x1, BIntD8<1>, BUintD8<1>, i8, u8);
 sweep_i!(i8x2, BIntD8<2>, BUintD8<2>, i16, u16);
 sweep_i!(i16x1, BIntD16<1>, BUintD16<1>, i16, u16);
+sweep_u!(u8x4, BUintD8<4>, BIntD8<4>, u32, i32);
+sweep_u!(u16x2, BUintD16<2>, BIntD16<2>, u32, i32);
+sweep_u!(u32x1, BUintD32<1>, BIntD32<1>, u32, i32);
+sweep_u!(u8x8, BUintD8<8>, BIntD8<8>, u64, i64);
+sweep_u!(u16x4, BUintD16<4>, BIntD16<4>, u64, i64);
+sweep_u!(u32x2, BUintD32<2>, BIntD32<2>, u64, i64);
+sweep_u!(u64x1, BUint<1>, BInt<1>, u64, i64);
+sweep_u!(u8x16, BUintD8<16>, BIntD8<16>, u128, i128);
+sweep_u!(u16x8, BUintD16<8>, BIntD16<8>, u128, i128);
+sweep_u!(u32x4, BUintD32<4>, BIntD32<4>, u128, i128);
+sweep_u!(u64x2, BUint<2>, BInt<2>, u128, i128);
+sweep_i!(i8x4, BIntD8<4>, BUintD8<4>, i32, u32);
+sweep_i!(i16x2, BIntD16<2>, BUintD16<2>, i32, u32);
+sweep_i!(i32x1, BIntD32<1>, BUintD32<1>, i32, u32);
+sweep_i!(i8x8, BIntD8<8>, BUintD8<8>, i64, u64);
+sweep_i!(i16x4, BIntD16<4>, BUintD16<4>, i64, u64);
+sweep_i!(i32x2, BIntD32<2>, BUintD32<2>, i64, u64);
+sweep_i!(i64x1, BInt<1>, BUint<1>, i64, u64);
+sweep_i!(i8x16, BIntD8<16>, BUintD8<16>, i128, u128);
+sweep_i!(i16x8, BIntD16<8>, BUintD16<8>, i128, u128);
+sweep_i!(i32x4, BIntD32<4>, BUintD32<4>, i128, u128);
+sweep_i!(i64x2, BInt<2>, BUint<2>, i128, u128);
 
 fn run(cfg: &str, g: &str, args: &Args, out: &mut String) -> bool {
     if cfg.starts_with('p') {
         return false;
     }
-    let (lo, hi) = (args.u32(0), args.u32(1));
-    let r = match cfg {
-        "u8x1" => u8x1(g, lo, hi),
-        "u8x2" => u8x2(g, lo, hi),
-        "u16x1" => u16x1(g, lo, hi),
-        "i8x1" => i8x1(g, lo, hi),
-        "i8x2" => i8x2(g, lo, hi),
-        "i16x1" => i16x1(g, lo, hi),
-        _ => return false,
-    };
+    let (lo, hi) = (args.u128(0), args.u128(1));
+    let bulk = args.len() >= 3 && args.u128(2) != 0;
+    macro_rules! disp { ($($n:ident),*) => { match cfg { $( stringify!($n) => $n(g, lo, hi, bulk), )* _ => return false } } }
+    let r = disp!(u8x1, u8x2, u16x1, i8x1, i8x2, i16x1, u8x4, u16x2, u32x1, u8x8, u16x4, u32x2, u64x1, u8x16, u16x8, u32x4, u64x2,
+                  i8x4, i16x2, i32x1, i8x8, i16x4, i32x2, i64x1, i8x16, i16x8, i32x4, i64x2);
     out.push_str(" exh=");
     Out::o(&(r.0, r.1, r.2), out);
     true
